@@ -465,6 +465,148 @@ impl Phase for Random {
     }
 }
 
+/// Histories on one tree object: evaluate, rename the applied functions through the mutable iterator (builtin to
+/// builtin, builtin to user function, unknown to builtin, …), evaluate again — the outcome is that of a tree precompiled
+/// from the renamed source. And `clone_from` into a tree of the same shape whose identifiers have other classes: the
+/// iterators of the refreshed tree describe the source tree.
+struct Histories {
+    n: u64,
+}
+
+fn map_calls(a: &Ast, f: &dyn Fn(&str) -> String) -> Ast {
+    match a {
+        Ast::Call(n, x) => Ast::Call(f(n), Box::new(map_calls(x, f))),
+        Ast::Assign(o, t, r) => Ast::Assign(o, t.clone(), Box::new(map_calls(r, f))),
+        Ast::Un(o, x) => Ast::Un(o, Box::new(map_calls(x, f))),
+        Ast::Group(x) => Ast::Group(Box::new(map_calls(x, f))),
+        Ast::Bin(o, l, r) => Ast::Bin(o, Box::new(map_calls(l, f)), Box::new(map_calls(r, f))),
+        Ast::Tuple(v) => Ast::Tuple(v.iter().map(|x| map_calls(x, f)).collect()),
+        Ast::Chain(v) => Ast::Chain(v.iter().map(|x| map_calls(x, f)).collect()),
+        other => other.clone(),
+    }
+}
+
+/// same shape, other identifier classes: `n op e` becomes `n = e` and the other way round
+fn class_twist(a: &Ast) -> Ast {
+    match a {
+        Ast::Bin(_, l, r) if matches!(**l, Ast::Read(_)) => match &**l {
+            Ast::Read(n) => Ast::Assign("=", n.clone(), Box::new(class_twist(r))),
+            _ => unreachable!(),
+        },
+        Ast::Assign(_, t, r) => Ast::Bin("+", Box::new(Ast::Read(t.clone())), Box::new(class_twist(r))),
+        Ast::Call(n, x) => Ast::Call(n.clone(), Box::new(class_twist(x))),
+        Ast::Un(o, x) => Ast::Un(o, Box::new(class_twist(x))),
+        Ast::Group(x) => Ast::Group(Box::new(class_twist(x))),
+        Ast::Bin(o, l, r) => Ast::Bin(o, Box::new(class_twist(l)), Box::new(class_twist(r))),
+        Ast::Tuple(v) => Ast::Tuple(v.iter().map(class_twist).collect()),
+        Ast::Chain(v) => Ast::Chain(v.iter().map(class_twist).collect()),
+        other => other.clone(),
+    }
+}
+
+impl Phase for Histories {
+    fn name(&self) -> String {
+        "histories on one tree: evaluate, rename applied functions, evaluate; clone_from over other identifier classes".into()
+    }
+    fn len(&self) -> u64 {
+        self.n
+    }
+    fn run(&mut self, _idx: u64, r: &mut Rng, out: &mut Out) {
+        let depth = r.range(1, 6);
+        let fpool = ["min", "max", "floor", "ceil", "len", "math::abs", "str::to_lowercase", "str::to_uppercase", "typeof", "f", "g", "nosuch", "round"];
+        let ast = {
+            let vars = ["a", "b", "c", "x"];
+            let mut g = AstGen {
+                r,
+                vars: &vars,
+                funs: &fpool,
+                allow_assign: true,
+                allow_seq: true,
+                distinct_names: false,
+                counter: 0,
+                max_nodes: 40,
+                nodes: 0,
+            };
+            g.expr(depth)
+        };
+        let src = render_spaced(&render_ast(&ast, Parens::Full, None, false));
+        out.begin(|| src.clone());
+        let tree = match api::build(&src) {
+            Built::Tree(t) => t,
+            _ => return,
+        };
+        let mut occ = Vec::new();
+        occurrences(&ast, &mut occ);
+        let mut model = model_for(&occ, r);
+        for f in ["f", "g"] {
+            model.funs.entry(f.to_string()).or_insert(FnModel::IntMap);
+        }
+        let log = observe::new_log();
+        // clone_from into a tree of the same shape with other identifier classes
+        {
+            let twisted = render_spaced(&render_ast(&class_twist(&ast), Parens::Full, None, false));
+            if let Built::Tree(mut dst) = api::build(&twisted) {
+                if r.chance(1, 2) {
+                    let _ = api::eval_tree_mut(&dst, &mut api::ctx_from_model(&model, &log));
+                }
+                dst.clone_from(&tree);
+                out.eval();
+                out.count("clone_from refreshes");
+                if format!("{:?}", dst) != format!("{:?}", tree) {
+                    out.violation("iterators/clone_from", format!("tree of `{}` refreshed by clone_from from the tree of `{}`", twisted, src), crate::refmodel::parse::node_sx(&tree), crate::refmodel::parse::node_sx(&dst));
+                } else if !check_iterators(out, &format!("tree of `{}` refreshed by clone_from from the tree of `{}`", twisted, src), &dst, &occ) {
+                    return;
+                }
+            }
+        }
+        // evaluate once or twice, then rename
+        for _ in 0..r.range(1, 2) {
+            let _ = if r.chance(1, 2) { api::eval_tree_mut(&tree, &mut api::ctx_from_model(&model, &log)) } else { api::eval_tree(&tree, &api::ctx_from_model(&model, &log)) };
+            out.eval();
+        }
+        let fnames: Vec<String> = {
+            let mut v = names_of(&occ, &['f']);
+            v.sort();
+            v.dedup();
+            v
+        };
+        if fnames.is_empty() {
+            return;
+        }
+        let map: BTreeMap<String, String> = fnames.iter().map(|n| (n.clone(), if r.chance(3, 4) { r.pick(&fpool).to_string() } else { n.clone() })).collect();
+        let ren = |n: &str| map.get(n).cloned().unwrap_or_else(|| n.to_string());
+        let on_clone = r.chance(1, 3);
+        let mut t2 = if on_clone { tree.clone() } else { tree };
+        for id in t2.iter_function_identifiers_mut() {
+            *id = ren(id);
+        }
+        let renamed_ast = map_calls(&ast, &ren);
+        let renamed_src = render_spaced(&render_ast(&renamed_ast, Parens::Full, None, false));
+        let fresh = match api::build(&renamed_src) {
+            Built::Tree(t) => t,
+            _ => return,
+        };
+        let (mut c1, mut c2) = (api::ctx_from_model(&model, &log), api::ctx_from_model(&model, &log));
+        let (g1, g2) = if r.chance(1, 2) { (api::eval_tree_mut(&t2, &mut c1), api::eval_tree_mut(&fresh, &mut c2)) } else { (api::eval_tree(&t2, &c1), api::eval_tree(&fresh, &c2)) };
+        out.evals(2);
+        out.count("evaluate / rename functions / evaluate histories");
+        out.nontrivial(&format!("{} -> {}", src, renamed_src));
+        out.sample(|| format!("`{}` evaluated, functions renamed by {:?}, evaluated: {}", src, map, g1.show()));
+        let mut occ2 = Vec::new();
+        occurrences(&renamed_ast, &mut occ2);
+        if !g1.same(&g2) || !api::same_vars(&api::ctx_vars(&c1), &api::ctx_vars(&c2)) {
+            out.violation(
+                "iterators/rename-after-evaluation",
+                format!("`{}` evaluated, then its applied functions renamed by {:?} through iter_function_identifiers_mut{}, then evaluated", src, map, if on_clone { " on a clone" } else { "" }),
+                format!("as the tree of `{}`: {} ; context {}", renamed_src, g2.show(), api::show_vars(&api::ctx_vars(&c2))),
+                format!("{} ; context {}", g1.show(), api::show_vars(&api::ctx_vars(&c1))),
+            );
+        } else {
+            check_iterators(out, &format!("`{}` with functions renamed by {:?}", src, map), &t2, &occ2);
+        }
+    }
+}
+
 /// n-ary sequences, empty parenthesis nodes, and non-last children with grandchildren — the shapes the
 /// hand-written traversal is most likely to get wrong
 /// hexadecimal and exponent spellings directly in front of a sign and a digit (`0x1e-3`, `t=0x2E+7*n`): numbers,
@@ -634,6 +776,9 @@ pub fn phases(cfg: &Cfg) -> Vec<Box<dyn Phase>> {
             n: cfg.n(250_000, 10_000_000),
         }),
         Box::new(FirstTokens),
+        Box::new(Histories {
+            n: cfg.n(60_000, 2_500_000),
+        }),
         Box::new(SpelledNumbers {
             n: cfg.n(20_000, 1_000_000),
         }),
